@@ -7,5 +7,5 @@ echo "##### $id-$suf confirm"
 /verif/tools/seedconfirm.sh $wt $d $demo $pkg "$run" 2>&1 | grep -v '^{"level"' | tail -14
 for c in $id "$@"; do
   echo "##### $id-$suf vs check $c"
-  /verif/tools/seedtest.sh $c $d 2>&1 | cut -c1-330 | head -8
+  /verif/tools/seedtest.sh $c $d 2>&1 | cut -c1-330 | awk 'NR<=6 || /^exit=/'
 done
